@@ -1357,8 +1357,10 @@ def run(ctx):
             finally:
                 fx.close()
     # data sets with several spectral windows (v2 files whose centre frequency is retuned): props/c01win.py, wire_1005
-    from props import c01win
+    from props import c01cat, c01win
     c01win.run(ctx)
+    # ... and several subarrays: v2 / v3 files opened together (props/c01cat.py, same model)
+    c01cat.run(ctx)
     ctx.extra['unanswered_reads'] = ctx.dist.get('unanswered', 0)
     ctx.extra['observation_models_skipped'] = len(SKIPPED)
     if ctx.tier == 'thorough':
@@ -1382,7 +1384,7 @@ def replay(ctx, doc):
     hid = case.get('hid', {})
     if hid.get('kind') == 'witness':
         return run_witness(ctx, hid['witness'])
-    if hid.get('kind') in ('win', 'win_corpus'):
+    if hid.get('kind') in ('win', 'win_corpus', 'cat'):
         from props import c01win
         return c01win.replay(ctx, hid)
     if 'witness' in case:
